@@ -31,7 +31,7 @@ const exitHang = 3
 
 // WorkerMain runs shard `shard` of `n` of check id, starting at (startSpace,startIndex).
 // only>=0 runs exactly that one case of startSpace.
-func WorkerMain(id, tier string, shard, n int, startSpace string, startIndex int64, only bool, careful bool, verbose bool, skip map[string]bool) int {
+func WorkerMain(id, tier string, shard, n int, startSpace string, startIndex int64, only bool, careful bool, verbose bool, skip map[string]bool, window int64) int {
 	ck := Lookup(id)
 	if ck == nil {
 		fmt.Fprintln(os.Stderr, "unknown check", id)
@@ -79,6 +79,13 @@ func WorkerMain(id, tier string, shard, n int, startSpace string, startIndex int
 	}()
 
 	started := startSpace == ""
+	fullPrefix := only && window < 0
+	if fullPrefix {
+		// replay everything the original worker of this shard ran before the case: all earlier
+		// spaces and the earlier cases of this space (shard = startIndex mod n)
+		started = true
+		shard = int(startIndex % int64(n))
+	}
 	lastProg := time.Now()
 	carefulLeft := int64(0)
 	if careful {
@@ -102,11 +109,34 @@ func WorkerMain(id, tier string, shard, n int, startSpace string, startIndex int
 		atomic.StoreInt64(&timeoutNs, int64(to))
 		curSpace.Store(sp.Name)
 		ctx.space = sp
+		if fullPrefix {
+			last := sp.N - 1
+			if sp.Name == startSpace {
+				last = startIndex
+			}
+			for j := int64(shard); j <= last; j += int64(n) {
+				ctx.index = j
+				atomic.StoreInt64(&curIndex, j)
+				atomic.AddInt64(&caseSeq, 1)
+				sp.Run(ctx, j)
+			}
+			if sp.Name == startSpace {
+				break
+			}
+			continue
+		}
 		if only {
-			ctx.index = startIndex
-			atomic.StoreInt64(&curIndex, startIndex)
-			atomic.AddInt64(&caseSeq, 1)
-			sp.Run(ctx, startIndex)
+			// replay one case; with window>0 the `window` cases that precede it in its shard
+			// (stride n) are run first, so that state shared between cases of one worker is rebuilt
+			for j := startIndex - window*int64(n); j <= startIndex; j += int64(n) {
+				if j < 0 {
+					continue
+				}
+				ctx.index = j
+				atomic.StoreInt64(&curIndex, j)
+				atomic.AddInt64(&caseSeq, 1)
+				sp.Run(ctx, j)
+			}
 			break
 		}
 		// first index >= begin congruent to shard mod n
@@ -281,6 +311,7 @@ func RunMain(id, tier string) int {
 	}
 	sort.Strings(sigs)
 	kf := loadKnown()
+	replayWindow := map[string]int64{}
 	nViol := 0
 	os.MkdirAll(filepath.Join(outDir(), "replays", id), 0o755)
 	var lines []string
@@ -288,15 +319,26 @@ func RunMain(id, tier string) int {
 	for _, s := range sigs {
 		v := agg.Viol[s]
 		if !strings.HasPrefix(s, "hang:") && !strings.HasPrefix(s, "crash:") {
-			ok := true
-			for k := 0; k < 2 && ok; k++ {
-				_, st := runOnly(exe, id, tier, v.Space, v.Index)
-				if st == nil || st.Viol[s] == nil {
-					ok = false
+			// the witness alone in a fresh process; if the violation depends on state a worker shares
+			// between cases, the preceding cases of its shard are replayed as well (growing window)
+			ok := false
+			for _, w := range []int64{0, 16, 256, 4096, 65536, -1} { // -1: the whole prefix of the shard, earlier spaces included
+				good := true
+				for k := 0; k < 2 && good; k++ {
+					_, st := runOnlyW(exe, id, tier, v.Space, v.Index, w, n)
+					if st == nil || st.Viol[s] == nil {
+						good = false
+					}
+				}
+				if good {
+					ok = true
+					replayWindow[s] = w
+					break
 				}
 			}
 			if !ok {
-				agg.Notes["unreproduced_"+s] = "violation did not reproduce in a fresh process: " + v.Case
+				agg.Notes["unreproduced_"+s] = "violation did not reproduce in a fresh process (even with everything its shard ran before it): " + v.Case
+				fmt.Printf("  [%s] UNREPRODUCED (not reported) %s\n    case: %s\n    %s\n", id, s, v.Case, v.Detail)
 				continue
 			}
 		}
@@ -316,6 +358,7 @@ func RunMain(id, tier string) int {
 		rb, _ := json.MarshalIndent(map[string]interface{}{
 			"property": id, "tier": tier, "space": v.Space, "index": v.Index, "case": v.Case,
 			"signature": s, "detail": v.Detail, "cases_with_signature": v.Count,
+			"replay_window": replayWindow[s], "replay_stride": n,
 			"replay_cmd": fmt.Sprintf("./run_check.sh replay %s", path),
 		}, "", " ")
 		os.WriteFile(path, rb, 0o644)
@@ -542,7 +585,11 @@ func tail(s string, n int) string {
 // runOnly executes a single case in a fresh process; returns "ok", "hang" or
 // "crash" and the stats (violations) it produced.
 func runOnly(exe, id, tier, space string, index int64) (string, *Stats) {
-	cmd := exec.Command(exe, "worker", id, tier, "0", "1", space, strconv.FormatInt(index, 10), "only")
+	return runOnlyW(exe, id, tier, space, index, 0, 1)
+}
+
+func runOnlyW(exe, id, tier, space string, index int64, window int64, stride int) (string, *Stats) {
+	cmd := exec.Command(exe, "worker", id, tier, "0", strconv.Itoa(stride), space, strconv.FormatInt(index, 10), "only", "window="+strconv.FormatInt(window, 10))
 	out, err := cmd.Output()
 	var st *Stats
 	kind := "ok"
@@ -575,6 +622,8 @@ func ReplayMain(path string) int {
 		Tier     string `json:"tier"`
 		Space    string `json:"space"`
 		Index    int64  `json:"index"`
+		Window   int64  `json:"replay_window"`
+		Stride   int    `json:"replay_stride"`
 	}
 	if err := json.Unmarshal(b, &r); err != nil {
 		fmt.Fprintln(os.Stderr, err)
@@ -582,7 +631,10 @@ func ReplayMain(path string) int {
 	}
 	fmt.Printf("replaying %s %s %s#%d\n", r.Property, r.Tier, r.Space, r.Index)
 	exe, _ := os.Executable()
-	cmd := exec.Command(exe, "worker", r.Property, r.Tier, "0", "1", r.Space, strconv.FormatInt(r.Index, 10), "only", "verbose")
+	if r.Stride < 1 {
+		r.Stride = 1
+	}
+	cmd := exec.Command(exe, "worker", r.Property, r.Tier, "0", strconv.Itoa(r.Stride), r.Space, strconv.FormatInt(r.Index, 10), "only", "verbose", "window="+strconv.FormatInt(r.Window, 10))
 	out, err := cmd.CombinedOutput()
 	viol := false
 	for _, line := range strings.Split(string(out), "\n") {
